@@ -59,6 +59,7 @@ def parseQ (s : String) : Option Qry :=
   | "M", some n => some (.qMap (n / 10) (n % 10))
   | "S", some n => some (.qShared n)
   | "U", some n => some (.qSpelled n)
+  | "O", some n => some (.sortFieldsTwice n)
   | "FA", some n => some (.fAll n)
   | "JA", some n => some (.fAll n)
   | "FO", some n => some (.fAny n)
